@@ -28,13 +28,13 @@ def run(ck):
     # candidates are cheap; the oracle budget goes to the instances on which best-fit-decreasing misses the lower bound (textbook re-implementation, not the
     # library's), i.e. where the search of bin completion actually runs
     from ..textbook import bfd_count, lb_count
-    cand = gen.pack_families(ck.rng, 4200 if q else 50000, maxn=11 if q else 12, minv=1)
+    cand = gen.pack_families(ck.rng, 4200 if q else 16000, maxn=11 if q else 12, minv=1)
     for g in cand:
         g["vals"] = [max(1, v) for v in g["vals"]][:12]
     hard = [g for g in cand if bfd_count(g["vals"], g["C"]) > lb_count(g["vals"], g["C"])]
     easy = [g for g in cand if not bfd_count(g["vals"], g["C"]) > lb_count(g["vals"], g["C"])]
-    fam = hard[:450 if q else 4500] + easy[:100 if q else 500]
-    ck.cat("family_instances_where_the_search_runs", len(hard[:450 if q else 4500]))
+    fam = hard[:450 if q else 1500] + easy[:100 if q else 300]
+    ck.cat("family_instances_where_the_search_runs", len(hard[:450 if q else 1500]))
     for g in fam + WITNESS:
         g = dict(g)
         g["vals"] = [max(1, v) for v in g["vals"]][:12]
@@ -48,7 +48,20 @@ def run(ck):
               "oracle cross-validation MinBins vs canonical-subset recursion")
     if r.violated:
         raise core.Machinery("oracle cross-validation failed: MinBins")
-    traces = run_pack_groups(ck, groups, {"C04"}, "C04 minimum number of bins", chunk=1500)
+    traces = run_pack_groups(ck, groups, {"C04"}, "C04 minimum number of bins", chunk=600)
+    # beyond the oracle: planted perfect packings of 10-14 items (TLC checks the certificate: OPT = number of planted bins)
+    big = gen.planted_small_packings(ck.rng, 25000 if q else 100000)
+    for g in big:
+        g["calls"] = [pcall("bc", "list")]; g["orc"] = 0
+    from .. import drive as _drive
+    tb = core.pmap(_drive.run_pack_group, big)
+    for t in tb:
+        ck.evaluations += len(t["res"]); ck.nontrivial.add(key_pack(t))
+        t["res"] = [r for r in t["res"] if r["out"] != "timeout"]
+    ck.cat("planted_perfect_packings_10_to_14_items", len(tb))
+    fb = ck.judge("JCertPack", tb, {"C04"}, what="C04 on planted perfect packings of 10-14 items (certified optimum)", chunk=6000)
+    ck.classify(fb, lambda fl: {"alg": "bc", "vals": fl["trace"]["vals"], "C": fl["trace"]["C"], "planted_bins": len(fl["trace"]["cert"]),
+                                "lists": fl["trace"]["res"][fl["e"] - 1]["lists"] if fl["e"] else None})
     for t in traces:
         if bfd_count(t["vals"], t["C"]) > lb_count(t["vals"], t["C"]):
             ck.cat("search_ran_beyond_bfd")
